@@ -15,9 +15,13 @@ rel, fn = sys.argv[1], sys.argv[2]
 props = [a for a in sys.argv[3:] if not a.startswith("--")]
 test_pkg = next((a.split("=", 1)[1] for a in sys.argv[3:] if a.startswith("--test-pkg=")), None)
 src = open(os.path.join(extract.REPO, rel)).read()
-m = re.search(r"\bfn\s+%s\b" % re.escape(fn), src)
-if not m:
+occ = 0
+if "#" in fn:
+    fn, occ = fn.split("#")[0], int(fn.split("#")[1])
+ms = list(re.finditer(r"\bfn\s+%s\b" % re.escape(fn), src))
+if len(ms) <= occ:
     sys.exit("function not found")
+m = ms[occ]
 i = src.index("{", m.end())
 depth, j = 0, i
 while True:
@@ -85,5 +89,5 @@ for n, (pos, op, line) in enumerate(sites):
         shutil.rmtree(tmp, ignore_errors=True)
     out.append(res)
     print("%3d L%-4d %-2s -> %-2s %-9s %s" % (n, res["line"], op, SWAP[op], "REPORTED" if res["flagged"] else "survives", res["text"]), res["flagged"] or ("tests:" + res.get("tests", "-")), flush=True)
-json.dump(out, open(os.path.join(V, ".cache", "sweep-%s-%s.json" % (os.path.basename(rel), fn)), "w"), indent=1)
+json.dump(out, open(os.path.join(V, ".cache", "sweep-%s-%s-%d.json" % (os.path.basename(rel), fn, occ)), "w"), indent=1)
 print("survivors: %d of %d" % (sum(1 for r in out if not r["flagged"]), len(out)))
